@@ -84,7 +84,8 @@ theorem step_highest {s : State} (inv : SInv s) {a : Stored} (ha : s.s.highest =
     · exact Or.inl rfl
     · exact Or.inr (Or.inl (by omega))
     · exact Or.inr (Or.inr ⟨by omega, i, by rw [hah]; exact hf, hc, by rw [hbm]; exact hl⟩)
-  rcases step_cs s op with ⟨_, hs⟩ | ⟨_, _, _, _, hs⟩ | ⟨h, m, ok, _, hs⟩ | ⟨h, m, ok, _, hs⟩ | ⟨_, _, hs⟩ | ⟨_, _, _, hs⟩
+  rcases step_cs s op with ⟨_, hs⟩ | ⟨_, _, _, _, hs⟩ | ⟨h, m, ok, _, hs⟩ | ⟨h, m, ok, _, hs⟩ | ⟨_, _, _, _, _, hs⟩ |
+    ⟨h, m, ok, _, _, hs⟩ | ⟨root, vc, _, hs⟩ | ⟨_, _, hs⟩ | ⟨_, _, _, hs⟩
   · exact ⟨a, by rw [hs]; exact ha, Or.inl rfl⟩
   · exact ⟨a, by rw [hs]; exact ha, Or.inl rfl⟩
   · obtain ⟨b, hb, hrel⟩ := processMsg_highest inv ha s.q h m ok
@@ -131,6 +132,59 @@ theorem step_highest {s : State} (inv : SInv s) {a : Stored} (ha : s.s.highest =
           · exact absurd hch (fun hc => hne hah hc)
           · omega
   · exact ⟨a, by rw [hs]; exact ha, Or.inl rfl⟩
+  · -- the runner path while the first write fails: only the runner's own save can write, and only after a `.new`
+    rw [hs]
+    unfold decidedViaRunnerSF
+    simp only
+    cases hsv : (runnerSaves s.r h (processMsg s.q s.c s.s h m ok).2.2 &&
+        (ok && decide (s.q ≤ m.signers.length) && firstSaveCalled s.c s.s h m))
+    · exact ⟨a, by simpa using ha, Or.inl rfl⟩
+    · simp only [if_true]
+      simp only [Bool.and_eq_true] at hsv
+      obtain ⟨hq, hpd, he, _, _⟩ := fresh_of_new (runnerSaves_new hsv.1)
+      rcases saveFound_highest
+          (if s.q ≤ m.signers.length then compactAt (processMsg s.q s.c s.s h m ok).1 h else (processMsg s.q s.c s.s h m ok).1)
+          s.s h m with hu | ⟨hle, i', hf', hw⟩
+      · exact ⟨a, by rw [hu]; exact ha, Or.inl rfl⟩
+      · refine ⟨_, hw, Or.inr (Or.inl ?_)⟩
+        show a.inst.height < i'.height
+        rw [find_some_height hf']
+        have hch : s.c.height ≤ h := by
+          simp only [hq, if_true, compactAt_height] at hle
+          exact Nat.le_trans (processMsg_height_ge _ _ _ _ _ _) hle
+        have hale := inv.le a ha
+        by_cases hah : a.inst.height = h
+        · have hac : a.inst.height = s.c.height := by omega
+          have := prevDecided_of_live inv ha hac
+          rw [← hac, hah, hpd] at this
+          cases this
+        · omega
+  · -- commits: the fresh running instance decides and is saved
+    rw [hs]
+    rcases commitsStep_cases s root vc with ⟨h0, _⟩ | ⟨rh, i, _, hf, hnd, _, _, hs'⟩
+    · rw [h0]; exact ⟨a, ha, Or.inl rfl⟩
+    · rw [hs']
+      rcases saveFound_highest
+          { s.c with insts := replaceInst { i with decided := true, commits := singles s.q root } s.c.insts } s.s rh
+          ⟨Gen.heights_FirstRound, root, List.range' 1 s.q⟩ with hu | ⟨hle, i', hf', hw⟩
+      · exact ⟨a, by rw [hu]; exact ha, Or.inl rfl⟩
+      · refine ⟨_, hw, Or.inr (Or.inl ?_)⟩
+        show a.inst.height < i'.height
+        rw [find_some_height hf']
+        have hale := inv.le a ha
+        have hle' : s.c.height ≤ rh := hle
+        by_cases hah : a.inst.height = rh
+        · -- the stored highest would be live and decided at rh, but the instance there is not decided
+          obtain ⟨i0, rest, hl, hi0, hcar⟩ := inv.live a ha (by omega)
+          have : i = i0 := by
+            rw [hl, find_cons] at hf
+            have : i0.height = rh := by omega
+            simp [this] at hf
+            exact hf.symm
+          subst this
+          rw [hcar.1] at hnd; cases hnd
+        · omega
+  · exact ⟨a, by rw [hs]; exact ha, Or.inl rfl⟩
   · exact ⟨a, by rw [hs]; exact ha, Or.inl rfl⟩
 
 theorem HiRel.height_le {s : State} {a b : Stored} (h : HiRel s a b) : a.inst.height ≤ b.inst.height := by
@@ -159,6 +213,9 @@ def consensusStart (s : State) (op : Op) : Option Nat :=
 def learns (s : State) (op : Op) : List Nat :=
   match op with
   | .decided h _ _ signers ok _ => if ok && decide (s.q ≤ signers.length) then [h] else []
+  -- a valid decided message is LEARNED when it is delivered, whether or not the store write succeeds
+  | .decidedSF h _ _ signers ok _ => if ok && decide (s.q ≤ signers.length) then [h] else []
+  -- (`commits` teaches nothing new: the height of the running instance was started in this process, so it is seen already)
   | _ => (consensusStart s op).toList
 
 /-- heights seen since the last restart; a restart resets them to the stored highest height (if any) -/
@@ -211,12 +268,15 @@ theorem consensusStart_ok {s : State} {op : Op} {slot : Nat} (h : consensusStart
     · cases h
   | begin _ => simp [consensusStart] at h
   | decided _ _ _ _ _ _ => simp [consensusStart] at h
+  | decidedSF _ _ _ _ _ _ => simp [consensusStart] at h
+  | commits _ _ => simp [consensusStart] at h
   | compact _ => simp [consensusStart] at h
   | restart _ => simp [consensusStart] at h
 
 /-- within a process the controller height never goes down -/
 theorem step_height_mono (s : State) (op : Op) (hop : ∀ f, op ≠ .restart f) : s.c.height ≤ (step s op).1.c.height := by
-  rcases step_cs s op with ⟨hc, _⟩ | ⟨slot, c', hst, hc, _⟩ | ⟨h, m, ok, hc, _⟩ | ⟨h, m, ok, hc, _⟩ | ⟨h, hc, _⟩ | ⟨f, hf, _, _⟩
+  rcases step_cs s op with ⟨hc, _⟩ | ⟨slot, c', hst, hc, _⟩ | ⟨h, m, ok, hc, _⟩ | ⟨h, m, ok, hc, _⟩ |
+    ⟨h, m, ok, _, hc, _⟩ | ⟨h, m, ok, _, hc, _⟩ | ⟨root, vc, hc, _⟩ | ⟨h, hc, _⟩ | ⟨f, hf, _, _⟩
   · rw [hc]; exact Nat.le_refl _
   · rw [hc]; obtain ⟨h1, _, h2, _⟩ := startNewInstance_ok hst; omega
   · rw [hc]
@@ -233,6 +293,17 @@ theorem step_height_mono (s : State) (op : Op) (hop : ∀ f, op ≠ .restart f) 
     split
     · rw [compactAt_height]; exact this
     · exact this
+  · rw [hc]; exact processMsg_height_ge _ _ _ _ _ _
+  · rw [hc]
+    unfold decidedViaRunnerSF
+    simp only
+    split
+    · rw [compactAt_height]; exact processMsg_height_ge _ _ _ _ _ _
+    · exact processMsg_height_ge _ _ _ _ _ _
+  · rw [hc]
+    rcases commitsStep_cases s root vc with ⟨h0, _⟩ | ⟨_, _, _, _, _, _, hc', _⟩
+    · rw [h0]; exact Nat.le_refl _
+    · rw [hc']; exact Nat.le_refl _
   · rw [hc, compactAt_height]; exact Nat.le_refl _
   · exact absurd hf (hop f)
 
@@ -264,6 +335,18 @@ theorem step_decided_c (s : State) (h r root : Nat) (sg : List Nat) (ok via : Bo
   · left; rfl
   · show (decidedViaRunner s h ⟨r, root, sg⟩ ok).1.c = _ ∨ (decidedViaRunner s h ⟨r, root, sg⟩ ok).1.c = _
     unfold decidedViaRunner
+    simp only
+    split
+    · right; rfl
+    · left; rfl
+
+theorem step_decidedSF_c (s : State) (h r root : Nat) (sg : List Nat) (ok via : Bool) :
+    (step s (.decidedSF h r root sg ok via)).1.c = (processMsg s.q s.c s.s h ⟨r, root, sg⟩ ok).1 ∨
+    (step s (.decidedSF h r root sg ok via)).1.c = compactAt (processMsg s.q s.c s.s h ⟨r, root, sg⟩ ok).1 h := by
+  cases via
+  · left; rfl
+  · show (decidedViaRunnerSF s h ⟨r, root, sg⟩ ok).1.c = _ ∨ (decidedViaRunnerSF s h ⟨r, root, sg⟩ ok).1.c = _
+    unfold decidedViaRunnerSF
     simp only
     split
     · right; rfl
@@ -347,6 +430,34 @@ theorem SeenLe.step {s : State} {seen : List Nat} (hs : SeenLe s seen) (op : Op)
         · rw [hc]; exact hp
         · rw [hc, compactAt_height]; exact hp
       · simp at hx
+  | decidedSF h r root sg ok via =>
+    have hmono := step_height_mono s (.decidedSF h r root sg ok via) (fun f hf => by cases hf)
+    unfold seenStep at hx
+    simp only [List.mem_append] at hx
+    rcases hx with hx | hx
+    · exact Nat.le_trans (hs x hx) hmono
+    · unfold learns at hx
+      simp only at hx
+      split at hx
+      · rename_i hv
+        simp only [List.mem_singleton] at hx
+        subst hx
+        simp only [Bool.and_eq_true, decide_eq_true_eq] at hv
+        have hp : x ≤ (processMsg s.q s.c s.s x ⟨r, root, sg⟩ ok).1.height := by
+          have he : processMsg s.q s.c s.s x ⟨r, root, sg⟩ ok = uponDecided s.c s.s x ⟨r, root, sg⟩ := by
+            unfold processMsg
+            have : ¬ sg.length < s.q := by omega
+            simp [hv.1, this]
+          rw [he]; exact (uponDecided_height_ge _ _ _ _).1
+        rcases step_decidedSF_c s x r root sg ok via with hc | hc
+        · rw [hc]; exact hp
+        · rw [hc, compactAt_height]; exact hp
+      · simp at hx
+  | commits root vc =>
+    have hmono := step_height_mono s (.commits root vc) (fun f hf => by cases hf)
+    unfold seenStep learns consensusStart at hx
+    simp only [Option.toList, List.append_nil] at hx
+    exact Nat.le_trans (hs x hx) hmono
   | compact h =>
     have hmono := step_height_mono s (.compact h) (fun f hf => by cases hf)
     unfold seenStep learns consensusStart at hx
